@@ -321,6 +321,7 @@ func main() {
 		}
 		rc := checkProperty(os.Args[2], "")
 		pprof.StopCPUProfile()
+		cleanupWork()
 		os.Exit(rc)
 	case "run":
 		if len(os.Args) > 3 {
@@ -330,13 +331,17 @@ func main() {
 		prop := strings.TrimPrefix(strings.SplitN(name, "_", 2)[0], "Verif")
 		rc := checkProperty(prop, name)
 		pprof.StopCPUProfile()
+		cleanupWork()
 		os.Exit(rc)
 	case "selftest":
-		os.Exit(selftest())
+		rc := selftest()
+		cleanupWork()
+		os.Exit(rc)
 	case "replay":
 		rp := os.Args[2]
 		out, detail := nativeReplayFile(rp)
 		fmt.Printf("replay %s: %s %s\n", rp, out, detail)
+		cleanupWork()
 		if out == "fail" || out == "panic" || out == "hang" {
 			os.Exit(1)
 		}
@@ -707,7 +712,7 @@ func nativeSamples(prop string, ld *loaded, results []*HarnessResult) (checked i
 		var paths, owners []string
 		for _, r := range byPkg[pkgRel] {
 			for k, smp := range r.rawSamples {
-				rp := filepath.Join(verifDir, ".work", fmt.Sprintf("sample-%s-%s-%d.json", prop, r.Harness, k))
+				rp := filepath.Join(verifDir, "replays", prop, fmt.Sprintf("sample-%s-%d.json", r.Harness, k))
 				writeReplay(rp, &Failure{Harness: r.Harness, Inputs: smp, Kind: "sample"})
 				paths = append(paths, rp)
 				owners = append(owners, r.Harness)
